@@ -11,6 +11,9 @@ impl InteractError {
 #[verifier::external_body]
 pub struct PanicPayload { _p: () }
 
+pub struct SyncGuardTok { }
+pub struct PoisonTok { }
+pub enum TryLockError { Poisoned(PoisonTok), WouldBlock }
 pub struct SyncWrapper<T> { pub obj: T, pub poisoned: Ghost<bool>, pub interactions: Ghost<int> }
 impl<T> SyncWrapper<T> {
     #[verifier::external_body]
@@ -21,6 +24,12 @@ impl<T> SyncWrapper<T> {
         ensures final(self).obj == old(self).obj, final(self).poisoned == old(self).poisoned,
             r matches Ctl::Done(Ok(_)) ==> !old(self).poisoned@ && final(self).interactions@ == old(self).interactions@ + 1,
             !(r matches Ctl::Done(Ok(_))) ==> final(self).interactions@ == old(self).interactions@,
+    { unimplemented!() }
+    // SyncWrapper::try_lock (std::sync::Mutex::try_lock underneath): Ok only on a free, unpoisoned mutex; `Poisoned` only on
+    // a poisoned one; `WouldBlock` whenever somebody (e.g. a cancelled interaction that is still running) holds it
+    #[verifier::external_body]
+    pub fn try_lock(&self) -> (r: Result<SyncGuardTok, TryLockError>)
+        ensures r is Ok ==> !self.poisoned@, (r matches Err(TryLockError::Poisoned(_))) ==> self.poisoned@
     { unimplemented!() }
     pub fn interact_target_(&mut self) -> (r: &mut T)
         ensures *r == old(self).obj, final(self).obj == *final(r), final(self).poisoned == old(self).poisoned, final(self).interactions == old(self).interactions
